@@ -1,0 +1,6 @@
+//go:build !verif
+
+package gpbft
+
+// verifOrderDrained is a no-op unless built with the "verif" tag.
+func verifOrderDrained([]*GMessage) {}
